@@ -12,3 +12,6 @@ import GldapModel.Props.FilterSession
 #print axioms Gldap.session_requests_filter
 #print axioms Gldap.C03_filter_criterion
 #print axioms Gldap.C20_wire_add_then_read_filter
+#print axioms Gldap.Filter.render_prefix
+#print axioms Gldap.Filter.render_injective
+#print axioms Gldap.C01_filter_faithful
